@@ -277,7 +277,7 @@ def _map_to_station_ids(
                             continue
                     _merge(station_id, this_update[k])
 
-            except ValueError as e:
+            except (ValueError, OverflowError) as e:
                 # todo: handle failure here
                 log.debug(f"tried to update charging price for key {k} but failed.")
 
